@@ -630,6 +630,26 @@ func (s *State) LogicalSize(file string) int64 {
 	return -1
 }
 
+// DurableRange: the fsynced content of [off, off+n) of a file; ok=false when any byte of the range has not been fsynced
+// (beyond the durable length, or in a never-fsynced hole of an earlier chunk).  The bytes may be STALE ones (fsynced before
+// a rewind and not yet overwritten durably): callers compare them with what they expect.
+func (s *State) DurableRange(file string, off int64, n int) ([]byte, bool) {
+	f := s.files[file]
+	if f == nil || off < 0 || n < 0 {
+		return nil, false
+	}
+	end := off + int64(n)
+	if end > int64(len(f.durable)) {
+		return nil, false
+	}
+	for i := off; i < end; i++ {
+		if i < int64(len(f.durMask)) && f.durMask[i] == 0 {
+			return nil, false
+		}
+	}
+	return f.durable[off:end], true
+}
+
 // Image materialises the crash image for a survival choice; files not mentioned lose every un-fsynced write.
 // all=true: every written byte survives (process kill without power loss).
 func (s *State) Image(surv map[string]Surv, all bool) *Image {
@@ -685,6 +705,54 @@ type FS struct {
 	PollSide bool
 	lastSide map[string]string
 	Reads    int
+	hook     HookFn
+}
+
+// HookFn: a scheduling point at the storage layer.  It is called on the goroutine that performs the storage op, OUTSIDE the
+// lock of the file system, once before the op is applied (pre=true) and once after it (pre=false).  While the hook runs the
+// caller is "inside" its Flush/Sync/Append: the harness can let other goroutines of the code under test run (start a whole
+// commit, wait until it reaches a given storage op or blocks) and thereby controls interleavings deterministically without
+// any hook in the code under test.  Other goroutines may use the file system freely while a hook runs.
+type HookFn func(pre bool, file string, kind Kind)
+
+// SetHook installs (or, with nil, removes) the scheduling hook.  Only Append, Flush and Sync are scheduling points.
+func (fs *FS) SetHook(h HookFn) {
+	fs.mu.Lock()
+	fs.hook = h
+	fs.mu.Unlock()
+}
+
+func (fs *FS) doHooked(op Op) (int64, int, error) {
+	fs.mu.Lock()
+	h := fs.hook
+	fs.mu.Unlock()
+	if h == nil {
+		return fs.do(op)
+	}
+	h(true, op.File, op.Kind)
+	off, n, err := fs.do(op)
+	h(false, op.File, op.Kind)
+	return off, n, err
+}
+
+// LogLen: number of ops recorded so far.
+func (fs *FS) LogLen() int {
+	fs.mu.Lock()
+	defer fs.mu.Unlock()
+	return len(fs.log)
+}
+
+// OpsSince returns a copy of the ops recorded at positions >= from (payloads shared: do not modify).
+func (fs *FS) OpsSince(from int) []Op {
+	fs.mu.Lock()
+	defer fs.mu.Unlock()
+	if from < 0 {
+		from = 0
+	}
+	if from >= len(fs.log) {
+		return nil
+	}
+	return append([]Op(nil), fs.log[from:]...)
 }
 
 // New creates a recording file system rooted at the real directory root (which must exist), holding base.
@@ -911,16 +979,16 @@ func (f *File) DiscardUpto(off int64) error {
 }
 
 func (f *File) Append(bs []byte) (int64, int, error) {
-	return f.fs.do(Op{File: f.name, Kind: KAppend, Len: len(bs), Data: append([]byte{}, bs...)})
+	return f.fs.doHooked(Op{File: f.name, Kind: KAppend, Len: len(bs), Data: append([]byte{}, bs...)})
 }
 
 func (f *File) Flush() error {
-	_, _, err := f.fs.do(Op{File: f.name, Kind: KFlush})
+	_, _, err := f.fs.doHooked(Op{File: f.name, Kind: KFlush})
 	return err
 }
 
 func (f *File) Sync() error {
-	_, _, err := f.fs.do(Op{File: f.name, Kind: KSync})
+	_, _, err := f.fs.doHooked(Op{File: f.name, Kind: KSync})
 	return err
 }
 
